@@ -612,6 +612,11 @@ pub fn check(prop_id: &str, tier: &str, verif_seed: u64) -> i32 {
         };
         // classify against open findings
         if let Some(fid) = crate::triggers::classify(prop_id, &class, &detail, &fin, &findings) {
+            // (kept for inspection; happens only when a guard was lifted by hand)
+            let mut f2 = fin.clone();
+            f2["violation_class"] = json!(class);
+            f2["violation_detail"] = json!(detail);
+            let _ = std::fs::write(replays_dir().join(format!("KNOWN-{}-{}-{}-{}.json", fid, prop_id, verif_seed, idx)), serde_json::to_vec_pretty(&f2).unwrap());
             *findings_hit.entry(fid).or_insert(0) += 1;
             continue;
         }
